@@ -172,7 +172,7 @@ class VariantInterval(AbstractFeatureInterval):
             sequence=str(self.sequence),
             variant_type=self.variant_type,
             phase_block=self.phase_block,
-            guid=self.guid,
+            variant_interval_guid=self.guid,
             variant_guid=self.variant_guid,
             variant_name=self.variant_name,
             variant_id=self.variant_id,
@@ -187,7 +187,7 @@ class VariantInterval(AbstractFeatureInterval):
             vals["sequence"],
             vals["variant_type"],
             vals["phase_block"],
-            vals["guid"],
+            vals["variant_interval_guid"],
             vals["variant_guid"],
             vals["variant_name"],
             vals["variant_id"],
